@@ -142,7 +142,7 @@ let () = main_loop (fun x ->
   ignore (force_types O N0);
   match x with
   | L [A "table"] ->
-    L [A "ok"; bool_sx code_is_fixed; nat_sx sev_error; nat_sx sev_warning;
+    L [A "ok"; L [bool_sx code_is_fixed; bool_sx code_sorts_early]; nat_sx sev_error; nat_sx sev_warning;
        L (List.map ckey_sx default_sort_list); L (List.map ckey_sx int_sort_list);
        L (List.map (fun r -> L [str_sx r.k_kind; str_sx r.k_code; nat_sx r.k_sev; bool_sx r.k_tag;
                                 bool_sx r.k_sub; bool_sx r.k_quotes_tag; bool_sx r.k_quotes_sub]) kind_table);
